@@ -316,7 +316,11 @@ func RunParent(propID, tier string, seed int64, rootDir, only string) int {
 		return 1
 	}
 	if len(agg.Broken) > 0 || len(floorsMissed) > 0 {
-		for _, b := range agg.Broken {
+		for i, b := range agg.Broken {
+			if i >= 3 {
+				fmt.Printf("BROKEN-CHECK %s: ... and %d more\n", propID, len(agg.Broken)-3)
+				break
+			}
 			fmt.Printf("BROKEN-CHECK %s: %s\n", propID, b)
 		}
 		for _, f := range floorsMissed {
